@@ -8,10 +8,10 @@
 package main
 
 import (
-	_ "time/tzdata" // zone rules for the daylight-saving cases (no zone files needed on the host)
 	"flag"
 	"fmt"
 	"os"
+	_ "time/tzdata" // zone rules for the daylight-saving cases (no zone files needed on the host)
 )
 
 // A Prop knows how to generate input segments and how to execute a segment on the real code.
